@@ -460,7 +460,7 @@ func VerifShapeFields() map[string][]string {
 		"archetypeData":   {"entityBuffer", "layouts", "buffers", "indices:via-layouts", "index"},
 		"archNode":        {"nodeData", "Mask", "Relation", "HasRelation", "IsActive"},
 		"nodeData": {"archetype", "archetypeMap", "zeroPointer:address", "Types:via-Ids", "Ids", "freeIndices", "zeroValue",
-			"archetypes", "archetypeData:via-archetypes", "neighbors", "capacityIncrement"},
+			"archetypes", "archetypeData:via-archetypes", "neighbors", "capacityIncrement", "pointerTypes:derived-from-Types"},
 		"Cache":             {"indices", "filters", "getArchetypes:callback", "intPool"},
 		"cacheEntry":        {"Filter:harness", "Indices", "Archetypes", "ID"},
 		"entityPool":        {"entities", "next", "available", "capacityIncrement"},
